@@ -39,6 +39,49 @@ int emitEvent(Gen& G, int frel, int slot, bool single = false)
     return slot;
 }
 
+// a family of "guard only" events on one variable v: each keeps v at one of its values (a -> a) and applies
+// one common change to lower variables.  When the family covers every value of v, the union of the events is
+// the identity on v, so in an identity-reduced forest the relation kept for v's level is rooted *below* that
+// level (or is the terminal identity when nothing lower changes) -- the shape by-levels bookkeeping must cope with.
+int emitGuardFamily(Gen& G, int frel, std::vector<int>& ev, int slot, int maxSlot)
+{
+    Rand& R = G.R;
+    const FSpec& S = G.P.forests[size_t(frel)];
+    const std::vector<int>& sz = G.P.domains[size_t(S.dom)];
+    const int K = int(sz.size());
+    const int v = K - 1 - int(R.below(uint32_t(K < 2 ? 1 : 2)));
+    std::vector<int> from(size_t(K), -1), to(size_t(K), -2);
+    if (v > 0 && R.chance(75)) {
+        int touched = R.range(1, v < 2 ? 1 : 2);
+        for (int t = 0; t < touched; t++) {
+            int u = int(R.below(uint32_t(v)));
+            int a = R.chance(80) ? int(R.below(uint32_t(sz[size_t(u)]))) : -1;
+            from[size_t(u)] = a; to[size_t(u)] = int(R.below(uint32_t(sz[size_t(u)])));
+        }
+    }
+    const int skip = R.chance(25) ? int(R.below(uint32_t(sz[size_t(v)]))) : -1;
+    int a = 0;
+    while (a < sz[size_t(v)] && slot < maxSlot) {
+        int inThis = (maxSlot - slot) * 2 < sz[size_t(v)] - a ? sz[size_t(v)] - a : R.range(1, 2);
+        int emitted = 0;
+        for (; inThis > 0 && a < sz[size_t(v)]; a++, inThis--) {
+            if (a == skip) continue;
+            from[size_t(v)] = a; to[size_t(v)] = a;
+            Step s{"mt"};
+            for (int x : from) s.push_back(Gen::num(x));
+            for (int x : to) s.push_back(Gen::num(x));
+            s.push_back("1");
+            G.emit(s);
+            emitted++;
+        }
+        if (!emitted) continue;
+        G.emit({"coll", Gen::num(slot), Gen::num(frel), "max", "0"});
+        G.setLive(slot, frel);
+        ev.push_back(slot++);
+    }
+    return slot;
+}
+
 // union of event slots into slot dst (forest frel)
 void emitUnion(Gen& G, const std::vector<int>& ev, int dst, int frel)
 {
@@ -90,7 +133,9 @@ Program genC08(Rand& R, int tier)
         if (r == 0 || R.chance(70)) {
             int ne = R.range(1, 6);
             std::vector<int> ev;
-            for (int i = 0; i < ne; i++) ev.push_back(emitEvent(G, frel, i));
+            int next = 0;
+            if (R.chance(20)) next = emitGuardFamily(G, frel, ev, next, 5);
+            for (int i = 0; i < ne && next < 8; i++) ev.push_back(emitEvent(G, frel, next++));
             emitUnion(G, ev, 8, frel);
         }
         if (r == 0 || R.chance(60)) emitInitial(G, fset, 9);
@@ -170,7 +215,9 @@ Program genC20(Rand& R, int tier)
     for (int r = 0; r < rounds; r++) {
         int ne = R.range(1, 8);
         std::vector<int> ev;
-        for (int i = 0; i < ne; i++) ev.push_back(emitEvent(G, frel, i, getenv("MVH_SINGLE") != nullptr));
+        int next = 0;
+        if (R.chance(35)) next = emitGuardFamily(G, frel, ev, next, R.chance(50) ? 8 : 5);
+        for (int i = 0; i < ne && next < 8; i++) ev.push_back(emitEvent(G, frel, next++, getenv("MVH_SINGLE") != nullptr));
         emitUnion(G, ev, 8, frel);
         emitInitial(G, fset, 9);
         int variants = R.range(1, 3);
